@@ -18,6 +18,7 @@ def check(run):
     unique(run, p)
     strict(run, p)
     exclprov(run, p)
+    cleanset(run, p)
 
 
 def roles(run, p):
@@ -161,7 +162,17 @@ def strict(run, p):
                 err = next((k.value for k in x.keywords if k.arg == 'errors'), x.args[1] if len(x.args) > 1 else None)
                 ok = err is None or (isinstance(err, ast.Constant) and err.value == 'strict')
                 run.ob('C12-STRICT', '%s::%s::%s' % (f.rel, f.short, norm(x.func.value)), ok, '%s decodes with errors=%s' % (norm(x)[:50], norm(err) if err is not None else 'strict (default)'), fn=f, node=x)
-    run.floor('C12-STRICT', n, 2)
+    fc = p.cls('FilesComparison')
+    for name in ('check_file', 'check_string_against_file', 'check_binary_file'):
+        f = fc.methods[name]
+        for x in ast.walk(f.node):
+            if isinstance(x, ast.Call) and getattr(x.func, 'id', '') == 'open':
+                n += 1
+                err = next((k.value for k in x.keywords if k.arg == 'errors'), None)
+                ok = err is None or (isinstance(err, ast.Constant) and err.value == 'strict')
+                run.ob('C12-STRICT', '%s::%s::%s' % (f.rel, f.short, norm(x.args[0]) if x.args else '?'), ok,
+                       '%s opens %s with errors=%s' % (f.short, norm(x.args[0]) if x.args else '?', norm(err) if err is not None else 'strict (default)'), fn=f, node=x)
+    run.floor('C12-STRICT', n, 7)
 
 
 def exclprov(run, p):
@@ -207,3 +218,19 @@ def exclprov(run, p):
         and 'find_diff_lines(first,later,filetype)' in src
     run.ob('C12-EXCLPROV', '%s::%s' % (g.rel, g.short), ok2, 'common/removals are filled only from the pairs find_diff_lines reports between run 1 and a later run', fn=g)
     run.floor('C12-EXCLPROV', 2, 2)
+
+
+def cleanset(run, p):
+    run.rule('C12-CLEANSET', 'the outputs removed before the command is re-run are exactly the files that are tested: the generated_files list '
+                             'is built from every reference file of run 1, unfiltered, the same set the per-file tests are written for')
+    g = p.method('TestGenerator', 'generated_file_paths')
+    comps = [x for x in ast.walk(g.node) if isinstance(x, (ast.ListComp, ast.GeneratorExp))]
+    ok = len(comps) == 1 and norm(comps[0].generators[0].iter) == 'self.reference_files[1]' and not comps[0].generators[0].ifs and len(comps[0].generators) == 1
+    run.ob('C12-CLEANSET', '%s::%s' % (g.rel, g.short), ok,
+           'generated_file_paths lists %s' % ('every reference file of run 1' if ok else norm(comps[0])[:90] if comps else 'something else'), fn=g)
+    rp = p.method('TestGenerator', 'remove_previous_outputs')
+    gv = p.method('TestGenerator', 'generated_files_var')
+    ok2 = 'self.generated_file_paths(' in ast.unparse(gv.node) and 'cls.generated_files' in ' '.join(
+        x.value for x in ast.walk(rp.node) if isinstance(x, ast.Constant) and isinstance(x.value, str))
+    run.ob('C12-CLEANSET', 'wiring', ok2, 'generated_files_var renders generated_file_paths(); the remove slot iterates cls.generated_files', fn=gv, nontrivial=False)
+    run.floor('C12-CLEANSET', 2, 2)
